@@ -23,7 +23,33 @@ def seeded():
 def status():
     claimed = open(os.path.join(HERE, "claimed.txt")).read().split()
     return "Claimed (%d): %s" % (len(claimed), " ".join(sorted(claimed)))
+def asbuilt():
+    import sys, importlib
+    sys.path.insert(0, HERE)
+    out = []
+    for pid in sorted(open(os.path.join(HERE, "claimed.txt")).read().split()):
+        try:
+            c = importlib.import_module("props." + pid.lower()).CHECK
+        except Exception as ex:
+            out.append("#### %s\n(could not load check: %s)\n" % (pid, ex)); continue
+        evp = os.path.join(V, "evidence", pid + ".json")
+        ev = json.load(open(evp)) if os.path.exists(evp) else {}
+        cov = ev.get("coverage", {})
+        thms = [t.split(".")[-1] for t in cov.get("theorems", [])]
+        out.append("#### %s — engine `%s`, modules %s" % (pid, c.ENGINE, ", ".join("`%s`" % m for m in c.LEAN_MODULES)))
+        out.append("*Level.* " + " ".join(str(c.LEVEL_TEXT).split()))
+        out.append("*Trusted / assumed.* " + " ".join(str(c.LEVEL_NOTE).split()))
+        out.append("*Theorems audited (%s/%s obligations, axioms: %s).* %s" % (cov.get("discharged", "?"), cov.get("obligations", "?"),
+                   ", ".join(a.replace("axioms seen: ", "") for a in cov.get("trusted_base", []) if a.startswith("axioms seen")) or "-",
+                   ", ".join("`%s`" % t for t in thms)))
+        if c.PARTIAL:
+            out.append("*Partial / outside the model.* " + "; ".join(" ".join(str(x).split()) for x in c.PARTIAL))
+        out.append("*Last quick run.* %s cases, %s agreeing with the model, %s distinct non-trivial; rule: %s" % (
+            cov.get("evaluations", "?"), cov.get("traces_validated_against_impl", "?"), cov.get("distinct_nontrivial", "?"),
+            " ".join(str(cov.get("rule", c.RULE)).split())[:600]))
+        out.append("")
+    return "\n".join(out)
 p = os.path.join(V, "DESIGN.md"); s = open(p).read()
-for name, fn in (("findings", findings), ("seeded", seeded), ("status", status)):
+for name, fn in (("findings", findings), ("seeded", seeded), ("status", status), ("asbuilt", asbuilt)):
     s = re.sub(r"(<!-- BEGIN %s -->).*?(<!-- END %s -->)" % (name, name), lambda m: m.group(1) + "\n" + fn() + "\n" + m.group(2), s, flags=re.S)
 open(p, "w").write(s)
